@@ -165,7 +165,9 @@ def runVariant (O : Oracles) (j : Json) : Except String Json := do
                 ("res", fieldResToJson (elabFieldAt scope O tm future fs)),
                 ("meaning", fieldResToJson (fieldMeaning O fs)),
                 ("annLen", Json.num (Lean.JsonNumber.fromNat (annLenField fs))),
-                ("supported", Json.bool (fieldSupportedAt O tm scope future fs))]
+                ("supported", Json.bool (fieldSupportedAt O tm scope future fs)),
+                ("flat", if flatRegion tm fs && stringOk scope future fs then fieldResToJson (.ok (flatMeaning fs))
+                         else Json.null)]
   pure (Json.mkObj [("cls", classResToJson (elabClass O tm c)),
                     ("fields", Json.arr perField.toArray),
                     ("supported", Json.bool (classSupported O tm c))])
